@@ -367,21 +367,21 @@ pub fn check(ctx: &Ctx) -> Check {
         Box::new(RandomPart {
             name: "project-small",
             rule: "call sets with raised missingness x maps x admissible targets (every m_j in 0..2n_j, weighted on the boundaries: anchored on one record's called totals so that it is exactly sufficient, the same with one population one pair short, 0, 2n_j, min_t, min_t+-1, random) x --project-shape | -p x --precision 0..12 x containers: shape (m_j+1), every printed cell within 0.5*10^-p + 1e-9(1+R) of the reference model with an independent hypergeometric oracle, printed with exactly p decimals, finite; -p i byte-identical to --project-shape 2i+1; non-trivial = >=1 record projected strictly down and >=1 record exactly sufficient or insufficient",
-            cases: ctx.tier.pick(5000, 60_000),
+            cases: ctx.tier.pick(5000, 200_000),
             strategy: Box::new(|| strategy().boxed()),
             eval: Box::new(eval),
         }),
         Box::new(RandomPart {
             name: "project-large-cohort",
             rule: "cohorts of 86..700 samples (172..1400 chromosomes: the ln-gamma path beyond the 170! table and binomials beyond f64 range, with extra weight on 515..522 samples where only the denominator binomial overflows), 2..6 records with ~20% missing genotypes, one or two populations, targets as above, precision 10; tolerance 0.5e-10 + 1e-8(1+R)",
-            cases: ctx.tier.pick(160, 1600),
+            cases: ctx.tier.pick(160, 4000),
             strategy: Box::new(|| large_strategy().boxed()),
             eval: Box::new(eval),
         }),
         Box::new(RandomPart {
             name: "inadmissible-targets",
             rule: "wrong number of axes, m_j > 2n_j, shape 0 (via --project-shape and -p): non-zero exit, diagnostic, empty stdout",
-            cases: ctx.tier.pick(400, 4000),
+            cases: ctx.tier.pick(400, 10_000),
             strategy: Box::new(|| bad_strategy().boxed()),
             eval: Box::new(eval_bad),
         }),
